@@ -54,6 +54,7 @@ func kindAndPub(k any) (string, string) {
 
 func pemLine(class, api, mode string, pemBytes, pass []byte) string {
 	noblock, ptype, proc, isenc, decrypt, der, dsarest, dsaparams, dsacons := 0, "", "", 0, 0, "err", 0, "-", "-"
+	dsax, dsay, dsaexp := "-", "-", "-"
 	blk, _ := pem.Decode(pemBytes)
 	if blk == nil {
 		noblock = 1
@@ -97,6 +98,10 @@ func pemLine(class, api, mode string, pemBytes, pass []byte) string {
 					key = &dsa.PrivateKey{PublicKey: dsa.PublicKey{Parameters: dsa.Parameters{P: k.P, Q: k.Q, G: k.G}, Y: k.Pub}, X: k.Priv}
 					dsaparams = hx.Hex(wire.MpintBytes(k.P)) + ":" + hx.Hex(wire.MpintBytes(k.Q)) + ":" + hx.Hex(wire.MpintBytes(k.G))
 					// is the public value the one belonging to the private one?  (nothing in x/crypto checks it)
+					dsax, dsay = hx.Hex(wire.MpintBytes(k.Priv)), hx.Hex(wire.MpintBytes(k.Pub))
+					if k.P.Sign() > 0 && k.Priv.Sign() >= 0 { // the stdlib value the check compares with Pub
+						dsaexp = hx.Hex(wire.MpintBytes(new(big.Int).Exp(k.G, k.Priv, k.P)))
+					}
 					dsacons = "0"
 					if k.P.Sign() > 0 && k.Priv.Sign() > 0 && new(big.Int).Exp(k.G, k.Priv, k.P).Cmp(k.Pub) == 0 {
 						dsacons = "1"
@@ -116,8 +121,8 @@ func pemLine(class, api, mode string, pemBytes, pass []byte) string {
 			}
 		}
 	}
-	return fmt.Sprintf("pem class=%s api=%s mode=%s pem=%s pass=%s noblock=%d ptype=%s proctype=%s isenc=%d decrypt=%d der=%s dsarest=%d dsaparams=%s dsacons=%s",
-		class, api, mode, hx.Hex(pemBytes), hx.Hex(pass), noblock, hx.Hex([]byte(ptype)), hx.Hex([]byte(proc)), isenc, decrypt, der, dsarest, dsaparams, dsacons)
+	return fmt.Sprintf("pem class=%s api=%s mode=%s pem=%s pass=%s noblock=%d ptype=%s proctype=%s isenc=%d decrypt=%d der=%s dsarest=%d dsaparams=%s dsax=%s dsay=%s dsaexp=%s dsacons=%s",
+		class, api, mode, hx.Hex(pemBytes), hx.Hex(pass), noblock, hx.Hex([]byte(ptype)), hx.Hex([]byte(proc)), isenc, decrypt, der, dsarest, dsaparams, dsax, dsay, dsaexp, dsacons)
 }
 
 func dsaDER(k *dsa.PrivateKey) []byte {
@@ -178,11 +183,19 @@ func genPem(g *hx.Gen, r *hx.Rand) {
 		k := *wire.NewKey("dsa", r.Bytes(2), "").DSA
 		switch r.Intn(7) {
 		case 6:
-			class = "dsa-inconsistent" // public value of another key / private value changed
-			if r.Bool() {
+			class = "dsa-inconsistent" // public value of another key / private value changed, zero, negative, + Q
+			switch r.Intn(5) {
+			case 0:
 				k.Y = new(big.Int).Set(wire.NewKey("dsa", []byte("other"), "").DSA.Y)
-			} else {
+			case 1:
 				k.X = new(big.Int).Add(k.X, big.NewInt(1))
+			case 2:
+				k.X = big.NewInt(0)
+				k.Y = big.NewInt(1) // G^0 = 1: only the range test refuses it
+			case 3:
+				k.X = new(big.Int).Add(k.X, k.Q) // same public value (G has order Q), X >= Q
+			case 4:
+				k.X = new(big.Int).Neg(k.X)
 			}
 			der = dsaDER(&k)
 			a := hx.Pick(r, []string{"signer", "signer", "raw"})
